@@ -27,6 +27,9 @@ pub struct GenCfg {
     pub entry_in_loop: bool,
     /// only use these operators in generated expressions (empty = all total ones)
     pub allow_div: bool,
+    /// remove an instruction from some blocks with `Block::remove_instruction`, so that instruction indices
+    /// are no longer contiguous (index != position) — what every editing client of the IL can produce
+    pub index_gaps: bool,
 }
 
 impl Default for GenCfg {
@@ -56,6 +59,7 @@ impl Default for GenCfg {
             addresses: true,
             entry_in_loop: true,
             allow_div: true,
+            index_gaps: true,
         }
     }
 }
@@ -253,6 +257,11 @@ pub fn gen_cfg(rng: &mut Rng, g: &GenCfg) -> ControlFlowGraph {
                 Operation::Intrinsic { intrinsic } => block.intrinsic(intrinsic),
                 Operation::Nop { .. } => block.nop(),
             }
+        }
+        if g.index_gaps && k >= 2 && rng.chance(1, 5) {
+            // drop a non-final instruction: the remaining indices have a gap
+            let victim = rng.below(k - 1) as usize;
+            block.remove_instruction(victim).unwrap();
         }
         if g.addresses {
             for ins in block.instructions_mut() {
